@@ -9,7 +9,9 @@ EXPLANATION = ('UB-obligation engine (see C15) restricted to the integer helpers
                'the integer difference-logic solver) and the rounding functions of FastRational (fastrat_fdiv_q, divexact, operator%, ceil, floor): every signed '
                'add/sub/negate/divide and every narrowing in them is discharged by LLVM -O2 or justified in the table. Plus: the word paths of fastrat_fdiv_q and divexact '
                'exclude the one operand pair whose quotient does not fit a word (INT_MIN). The arithmetic identities themselves (Euclidean div/mod axioms, bound tightening) '
-               'need a solver and are not decided.')
+               'are decided in one respect only: the direction of every rounding step - constant folding of div / mod and the tightening of bounds on integer variables are '
+               'evaluated over a finite rounding-direction domain (exact quotient, floor, floor + k; integer or not) for every sign / strictness case. The div/mod elimination axioms and '
+               'the gcd normalisation are not decided.')
 
 
 def run(src, tier, seed):
@@ -29,4 +31,129 @@ def run(src, tier, seed):
             res.ok(r, '%s guards INT_MIN' % nm)
         else:
             res.bad(r, 'int-min-unguarded:%s' % nm.split('::')[-1], fx.loc(f), '%s divides machine words without excluding INT_MIN: INT_MIN / -1 does not fit a word and traps' % nm)
+    rounding_direction_rules(fx, res)
     return res
+
+
+# ---------------------------------------------------------------------------------------------------------------------
+# The rounding-direction domain.  A value is ('q', k): the exact rational q plus the integer k, or ('fl', k): floor(q) + k.  In the case "q is an integer"
+# floor(q) = ceil(q) = q, otherwise ceil(q) = floor(q) + 1.  Which direction a piece of code rounds in, for which sign / strictness, is a function of this
+# finite case split; the numbers themselves never matter.
+def _round_oracle(exact, D=None, d=None, sign=None):
+    from boolctor import Unmodelled
+
+    def val_of(i, a, n):
+        return i.val(n['recv']) if n.get('recv') is not None else a[0]
+
+    def floor(i, a, n):
+        v = val_of(i, a, n)
+        if isinstance(v, tuple) and v[0] == 'q':
+            return ('q', v[1]) if exact else ('fl', v[1])
+        if isinstance(v, tuple) and v[0] == 'fl':
+            return v
+        raise Unmodelled('floor of %s' % (v,))
+
+    def ceil(i, a, n):
+        v = val_of(i, a, n)
+        if isinstance(v, tuple) and v[0] == 'q':
+            return ('q', v[1]) if exact else ('fl', v[1] + 1)
+        if isinstance(v, tuple) and v[0] == 'fl':
+            return v
+        raise Unmodelled('ceil of %s' % (v,))
+
+    def add(i, a, n, sgn=1):
+        x, y = a[0], a[1]
+        if isinstance(y, int) and isinstance(x, tuple) and x[0] in ('q', 'fl'):
+            return (x[0], x[1] + sgn * y)
+        if isinstance(x, int) and isinstance(y, tuple) and y[0] in ('q', 'fl') and sgn == 1:
+            return (y[0], y[1] + x)
+        if sgn == -1 and D is not None and x == D and isinstance(y, tuple) and y[0] == 'mul':
+            return ('mod', y[1])
+        raise Unmodelled('sum / difference of %s and %s' % (x, y))
+
+    def mul(i, a, n):
+        x, y = a[0], a[1]
+        if d is not None and x == d and isinstance(y, tuple) and y[0] in ('q', 'fl'):
+            return ('mul', y)
+        if d is not None and y == d and isinstance(x, tuple) and x[0] in ('q', 'fl'):
+            return ('mul', x)
+        raise Unmodelled('product of %s and %s' % (x, y))
+
+    def quotient(i, a, n):
+        if D is not None and a[0] == D and a[1] == d:
+            return ('q', 0)
+        raise Unmodelled('quotient of %s and %s' % (a[0], a[1]))
+
+    def sgn(i, a, n):
+        if d is not None and val_of(i, a, n) == d:
+            return sign
+        raise Unmodelled('sign of %s' % (val_of(i, a, n),))
+    return {'op:/': quotient, 'floor': floor, 'ceil': ceil, 'op:+': add, 'op:-': lambda i, a, n: add(i, a, n, -1), 'op:*': mul,
+            'op:+=': add, 'op:-=': lambda i, a, n: add(i, a, n, -1),
+            'fastrat_fdiv_q': lambda i, a, n: quotient(i, a, n) if exact else ('fl', 0),
+            'sign': sgn, 'isNegative': lambda i, a, n: sgn(i, a, n) < 0, 'isPositive': lambda i, a, n: sgn(i, a, n) > 0,
+            'isNumConst': lambda i, a, n: True, 'isConstant': lambda i, a, n: True, 'isZero': lambda i, a, n: False, 'isOne': lambda i, a, n: False,
+            'isMinusOne': lambda i, a, n: False, 'checkSortInt': lambda i, a, n: None, 'getNumConst': lambda i, a, n: ('num', a[0][1]), 'isInteger': lambda i, a, n: True,
+            'mkIntConst': lambda i, a, n: ('const', a[0]), 'mkConst': lambda i, a, n: ('const', a[-1]), 'size': lambda i, a, n: 2}
+
+
+def _show(v):
+    if isinstance(v, tuple) and v and v[0] in ('q', 'fl'):
+        base = 'q' if v[0] == 'q' else 'floor(q)'
+        return base if v[1] == 0 else '%s%+d' % (base, v[1])
+    if isinstance(v, tuple) and v and v[0] in ('const', 'mod'):
+        return ('dividend - divisor*(%s)' if v[0] == 'mod' else '%s') % _show(v[1])
+    return str(v)
+
+
+def rounding_direction_rules(fx, res):
+    import itertools
+    from build import AnalysisBroken
+    from boolctor import Interp, Unmodelled, Thrown
+    r = res.rule('div-mod-folding-direction', 'constant folding of div and mod (ArithLogic::mkIntDiv, mkMod, helpers inlined) is evaluated over the rounding-direction domain for both divisor '
+                 'signs and for exact / inexact quotients q: the folded quotient is floor(q) for a positive and ceil(q) for a negative divisor (SMT-LIB: the remainder is non-negative), '
+                 'and mod is dividend - divisor * that quotient', floor=8)
+    D, d = ('num', 'D'), ('num', 'd')
+    for nm, wrap in (('opensmt::ArithLogic::mkIntDiv', lambda q: ('const', q)), ('opensmt::ArithLogic::mkMod', lambda q: ('const', ('mod', q)))):
+        f = fx.func(nm, pred=lambda g: len(g['params']) == 1 and '&&' in g['params'][0]['t'])
+        for sign, exact in itertools.product((1, -1), (True, False)):
+            it = Interp(fx, f, '?', {})
+            it.inline = True
+            it.oracle = _round_oracle(exact, D, d, sign)
+            try:
+                out = it.run_env({f['params'][0]['n']: [('pt', 'D'), ('pt', 'd')]})
+            except Thrown:
+                raise AnalysisBroken('%s throws on two integer constants' % nm)
+            except Unmodelled as e:
+                raise AnalysisBroken('%s is outside the rounding-direction domain: %s' % (nm, e))
+            want_q = ('q', 0) if exact else ('fl', 0 if sign > 0 else 1)
+            case = '%s divisor, %s quotient' % ('positive' if sign > 0 else 'negative', 'exact' if exact else 'inexact')
+            if out == wrap(want_q):
+                res.ok(r, '%s, %s: %s' % (nm.split('::')[-1], case, _show(out)))
+            else:
+                res.bad(r, 'folding-rounds-wrongly:%s' % nm.split('::')[-1], fx.loc(f), '%s folds two constants (%s) to %s; SMT-LIB integer division gives %s: the folded value differs from the '
+                        'value of the term for such operands (for example 6 and -3 when the quotient is exact, 7 and -2 when it is not)' % (nm.replace('opensmt::', ''), case, _show(out), _show(wrap(want_q))))
+    r = res.rule('bound-tightening-direction', 'LASolver::getBoundsValueForIntVar, evaluated over the rounding-direction domain for integer and non-integer constants c: x < c gives upper bound '
+                 'ceil(c)-1 and, for the negated literal, lower bound ceil(c); x <= c gives floor(c) and floor(c)+1', floor=4)
+    f = fx.func('opensmt::LASolver::getBoundsValueForIntVar')
+    pn = [p['n'] for p in f['params']]
+    for strict, exact in itertools.product((True, False), (True, False)):
+        it = Interp(fx, f, '?', {})
+        it.inline = True
+        it.oracle = _round_oracle(exact)
+        try:
+            out = it.run_env({pn[0]: ('q', 0), pn[1]: strict})
+        except Thrown:
+            raise AnalysisBroken('getBoundsValueForIntVar throws')
+        except Unmodelled as e:
+            raise AnalysisBroken('getBoundsValueForIntVar is outside the rounding-direction domain: %s' % e)
+        if strict:
+            want = [('q', -1), ('q', 0)] if exact else [('fl', 0), ('fl', 1)]
+        else:
+            want = [('q', 0), ('q', 1)] if exact else [('fl', 0), ('fl', 1)]
+        case = 'x %s c, c %s' % ('<' if strict else '<=', 'an integer' if exact else 'not an integer')
+        if isinstance(out, list) and out == want:
+            res.ok(r, '%s: upper %s, lower of the negation %s' % (case, _show(out[0]), _show(out[1])))
+        else:
+            res.bad(r, 'tightening-rounds-wrongly', fx.loc(f), 'LASolver::getBoundsValueForIntVar (%s) returns the bounds %s; integer semantics gives %s: an integer solution is cut off or a non-solution '
+                    'admitted' % (case, [_show(x) for x in out] if isinstance(out, list) else out, [_show(x) for x in want]))
